@@ -86,7 +86,7 @@ CLAIMED = {
              "extended-data (by DTC and by record number), snapshot (by DTC and by record number) and ReadDataByIdentifier (fixed-length codecs) parsers: zero padding tolerated when the option "
              "is on, refused when it is off; RequestFileTransfer for EVERY reply accepted without tolerance (append-stability of the field parsers): d ++ zeros decodes to the same value with "
              "tolerance and is invalid without. The 0x16 known finding is itself a theorem (two whole zero records are refused). Domain extracted from the "
-             "docstrings on every run (31 methods). Known finding: sub-function 0x16 rejects two whole zero records. Tied by every valid reply x pad 0..2*record+1 x 4 settings.",
+             "docstrings on every run (31 methods). Known finding: sub-function 0x16 rejects two whole zero records. Tied by every valid reply x pad 0..2*record+1 x 4 settings. Call level (Props/C11Call): callWith_final - what a client method hands back for an in-time final positive reply (after any number of pending replies) is exactly its interpretation of the reply data; hence callWith_padding_invariant / callWith_padding_rejected lift every interpretation-level padding theorem to the call, instantiated for RequestFileTransfer (rft_call_pad_tolerated).",
         design_ref='DESIGN.md §3 C11',
         technique='Lean 4 proof (strong induction on the pad length, prefix lemma by list induction) + docstring-extracted domain + differential correspondence'),
     'C12': dict(
